@@ -110,6 +110,8 @@ def run(ctx):
         for look in ("peek_os(self,cursor)", "get(self.items,cursor.cursor)"):
             if sorted((v, tuple(g for g in gl if g.endswith(":" + look))) for v, gl in consts) == [(0, ("V1:" + look,)), (1, ("V0:" + look,))]:
                 forms = ["is_none(%s)" % look]
+    # Option::map keeps None-ness: is_none(x.map(f)) == is_none(x)   (peek_os written out in place)
+    forms = [re.sub(r"^is_none\(map\((.*),closure\([^()]*\)\)\)$", r"is_none(\1)", f_) for f_ in forms]
     OKF = {"is_none(peek_os(self,cursor))", "is_none(get(self.items,cursor.cursor))", "Ge(cursor.cursor,len(self.items))", "Le(len(self.items),cursor.cursor)"}
     res.check(len(forms) == 1 and forms[0] in OKF, "R14.1", "is_end", ie_.where(), "is_end = nothing at the cursor (%s)" % forms, "is_end is computed as %s: with the cursor allowed past the end (next_os advances unconditionally) this is not `cursor >= len`" % forms)
 
